@@ -757,4 +757,357 @@ theorem rnpF_sums_optimal {v nm : α → Nat} [BEq α] [LawfulBEq α] {k : Nat} 
   obtain ⟨asg, h1, h2⟩ := real_assignment hr
   exact ⟨hopt, asg, h1, h2 ▸ List.Perm.refl _⟩
 
+/-- non-vacuity, five bins (the odd case on top of the even case with a non-empty prior); only the first prior bin
+    carries its items: the sub-results of the even case are concatenations of 2-way results -/
+example : IsOptimalValue .minDiff 5 ([11, 9, 9, 6, 6, 4, 4, 4].map id) 3 ∧
+    ∃ asg, IsAssignment 5 8 asg ∧ (sumsOf 5 ([11, 9, 9, 6, 6, 4, 4, 4].map id) asg).Perm [9, 9, 12, 11, 12] :=
+  rnpF_sums_optimal (v := id) (nm := id) (k := 5) (fuel := 1000) (b := ⟨[9, 9, 12, 11, 12], [[9], [], [], [], []]⟩)
+    (by decide) (by decide) (by decide) rfl
+
+/-- non-vacuity, four bins (the even case at top level) -/
+example : IsOptimalValue .minDiff 4 ([5, 3, 3, 3, 2, 2, 2, 2].map id) 1 ∧
+    ∃ asg, IsAssignment 4 8 asg ∧ (sumsOf 4 ([5, 3, 3, 3, 2, 2, 2, 2].map id) asg).Perm [5, 6, 5, 6] :=
+  rnpF_sums_optimal (v := id) (nm := id) (k := 4) (fuel := 1000) (b := ⟨[5, 6, 5, 6], [[], [], [], []]⟩)
+    (by decide) (by decide) (by decide) rfl
+
+/-- non-vacuity, three bins (the odd case) -/
+example : IsOptimalValue .minDiff 3 ([5, 3, 3, 2, 2, 2].map id) 1 ∧
+    ∃ asg, IsAssignment 3 6 asg ∧ (sumsOf 3 ([5, 3, 3, 2, 2, 2].map id) asg).Perm [5, 6, 6] :=
+  rnpF_sums_optimal (v := id) (nm := id) (k := 3) (fuel := 1000) (b := ⟨[5, 6, 6], [[5], [], []]⟩)
+    (by decide) (by decide) (by decide) rfl
+
+/-! ## 4. the whole vector of sums does not depend on the manager
+
+  The control flow of SNP and RNP reads the incumbent only through its sums, and the only place where the manager
+  matters is the 2-way search, which returns the sums of a split of minimum difference *in ascending order*: these
+  two numbers are determined by the items (`twoOK_sums_eq`).  Hence the two runs proceed in lock-step. -/
+
+/-- the 2-way search returns the same two sums with either manager (and whatever the fuel, if it suffices) -/
+theorem ckk2_sums_eq {v nm : α → Nat} [BEq α] [LawfulBEq α] {c c' : Bool} {items : List α} {fuel fuel' : Nat}
+    {two two' : Bins α} (h : ckk2 v nm c items fuel = .ok two) (h' : ckk2 v nm c' items fuel' = .ok two') :
+    two.sums = two'.sums := by
+  obtain ⟨h1, h2⟩ := ckk2_twoOK c h
+  obtain ⟨h1', h2'⟩ := ckk2_twoOK c' h'
+  exact twoOK_sums_eq h1 h2 h1' h2'
+
+/-- lock-step rule for `treeFold` -/
+theorem treeFold_sim {σ σ' : Type} (R : σ → σ' → Prop) (v : α → Nat) (den : Nat) (ub : Int)
+    (lbOf : σ → Int) (lbOf' : σ' → Int) (body : σ → List α → Except Err σ) (body' : σ' → List α → Except Err σ')
+    (hlb : ∀ s s', R s s' → lbOf s = lbOf' s')
+    (hbody : ∀ s s' x t t', R s s' → body s x = .ok t → body' s' x = .ok t' → R t t') :
+    ∀ (rest cur : List α) (st : σ) (st' : σ') (r : σ) (r' : σ'), R st st' →
+      treeFold v den ub lbOf body st cur rest = .ok r → treeFold v den ub lbOf' body' st' cur rest = .ok r' →
+      R r r' := by
+  intro rest
+  induction rest with
+  | nil =>
+    intro cur st st' r r' hR h h'
+    simp only [treeFold, hlb _ _ hR] at h
+    simp only [treeFold] at h'
+    split at h
+    · rename_i hp
+      rw [if_pos hp] at h'
+      cases h; cases h'
+      exact hR
+    · rename_i hp
+      rw [if_neg hp] at h'
+      exact hbody _ _ _ _ _ hR h h'
+  | cons x xs ih =>
+    intro cur st st' r r' hR h h'
+    simp only [treeFold, hlb _ _ hR] at h
+    simp only [treeFold] at h'
+    split at h
+    · rename_i hp
+      rw [if_pos hp] at h'
+      cases h; cases h'
+      exact hR
+    · rename_i hp
+      rw [if_neg hp] at h'
+      cases hL : treeFold v den ub lbOf body st (cur ++ [x]) xs with
+      | error e => rw [hL] at h; cases h
+      | ok s1 =>
+        rw [hL] at h
+        cases hL' : treeFold v den ub lbOf' body' st' (cur ++ [x]) xs with
+        | error e => rw [hL'] at h'; cases h'
+        | ok s1' =>
+          rw [hL'] at h'
+          exact ih cur s1 s1' r r' (ih (cur ++ [x]) st st' s1 s1' hR hL hL') h h'
+
+/-- lock-step rule for `foldE` -/
+theorem foldE_sim {σ σ' β : Type} (R : σ → σ' → Prop) (f : σ → β → Except Err σ) (f' : σ' → β → Except Err σ')
+    (hf : ∀ s s' x t t', R s s' → f s x = .ok t → f' s' x = .ok t' → R t t') :
+    ∀ (l : List β) (s : σ) (s' : σ') (r : σ) (r' : σ'), R s s' →
+      foldE f s l = .ok r → foldE f' s' l = .ok r' → R r r' := by
+  intro l
+  induction l with
+  | nil =>
+    intro s s' r r' hR h h'
+    simp only [foldE] at h h'
+    cases h; cases h'
+    exact hR
+  | cons x xs ih =>
+    intro s s' r r' hR h h'
+    simp only [foldE] at h h'
+    cases hx : f s x with
+    | error e => rw [hx] at h; cases h
+    | ok t =>
+      rw [hx] at h
+      cases hx' : f' s' x with
+      | error e => rw [hx'] at h'; cases h'
+      | ok t' =>
+        rw [hx'] at h'
+        exact ih t t' r r' (hf _ _ _ _ _ hR hx hx') h h'
+
+/-- `rec_generate_sets` of SNP: the returned sums depend neither on the manager nor on the item lists of the
+    incumbent -/
+theorem snpRec_sim {v nm : α → Nat} [BEq α] [LawfulBEq α] (c c' : Bool) (fuel fuel' : Nat) (n : Nat) :
+    ∀ (prior best best' : Bins α) (rem : List α) (r r' : Bins α), best.sums = best'.sums →
+      snpRec v nm c fuel n prior best rem = .ok r → snpRec v nm c' fuel' n prior best' rem = .ok r' →
+      r.sums = r'.sums := by
+  induction n using Nat.strongRecOn with
+  | ind n ih =>
+    intro prior best best' rem r r' hb h h'
+    match n with
+    | 0 => simp only [snpRec] at h h'; cases h; cases h'; exact hb
+    | 1 => simp only [snpRec] at h h'; cases h; cases h'; exact hb
+    | 2 =>
+      simp only [snpRec] at h h'
+      cases h2 : ckk2 v nm c rem fuel with
+      | error e => rw [h2] at h; cases h
+      | ok two =>
+        rw [h2] at h
+        cases h2' : ckk2 v nm c' rem fuel' with
+        | error e => rw [h2'] at h'; cases h'
+        | ok two' =>
+          rw [h2'] at h'
+          simp only [← ckk2_sums_eq h2 h2', ← hb] at h'
+          simp only at h
+          split at h
+          · rename_i hlt
+            rw [if_pos hlt] at h'
+            cases h; cases h'
+            simp only [Bins.concat, ckk2_sums_eq h2 h2']
+          · rename_i hlt
+            rw [if_neg hlt] at h'
+            cases h; cases h'
+            exact hb
+    | m + 3 =>
+      rw [snpRec] at h h'
+      refine treeFold_sim (fun b b' : Bins α => b.sums = b'.sums) v _ _ _ _ _ _ ?_ ?_ _ _ _ _ _ _ hb h h'
+      · intro s s' hs
+        simp only [hs]
+      · intro s s' x t t' hs ht ht'
+        exact ih (m + 2) (by omega) _ s s' _ t t' hs ht ht'
+
+/-- **Stretch goal, SNP: the vector of sums does not depend on the manager.**  If `snp` answers with the contents
+    manager and with the sums-only manager (the fuels may differ), the two answers have the same `sums`, in the same
+    order.  So `out.Sums` and the sums of `out.PartitionAndSums` agree exactly, not only in value. -/
+theorem snp_sums_manager_independent {v nm : α → Nat} [BEq α] [LawfulBEq α] {k : Nat} {items : List α}
+    {fuel₁ fuel₂ : Nat} {b₁ b₂ : Bins α} (h₁ : snp v nm k true items fuel₁ = .ok b₁)
+    (h₂ : snp v nm k false items fuel₂ = .ok b₂) : b₂.sums = b₁.sums := by
+  unfold snp at h₁ h₂
+  cases hb : kk v k items with
+  | error e => rw [hb] at h₁; cases h₁
+  | ok best =>
+    rw [hb] at h₁ h₂
+    simp only at h₁ h₂
+    split at h₁
+    · rename_i h0
+      rw [if_pos h0] at h₂
+      cases h₁; cases h₂; rfl
+    · rename_i h0
+      rw [if_neg h0] at h₂
+      exact (snpRec_sim true false fuel₁ fuel₂ k _ best best items b₁ b₂ rfl h₁ h₂).symm
+
+/-- non-vacuity: the two runs on eight items and five bins -/
+example : (⟨[12, 12, 9, 11, 9], [[], [], [9], [11], [9]]⟩ : Bins Nat).sums
+    = (⟨[12, 12, 9, 11, 9], [[4, 4, 4], [6, 6], [9], [11], [9]]⟩ : Bins Nat).sums :=
+  snp_sums_manager_independent (v := id) (nm := id) (k := 5) (items := [11, 9, 9, 6, 6, 4, 4, 4])
+    (fuel₁ := 1000) (fuel₂ := 1000) rfl rfl
+
+theorem rnpRecF_even_eq {v nm : α → Nat} [BEq α] {c : Bool} {fuel rf cur : Nat} {prior best : Bins α}
+    {items : List α} (h2 : (cur == 2) = false) (h1 : (cur % 2 == 1) = false) :
+    rnpRecF v nm c fuel (rf + 1) cur prior best items =
+      match (if items.isEmpty then .error .valueError
+             else ckkGen v nm 2 true items (some (spread best.sums)) fuel) with
+      | .error e => .error e
+      | .ok tops => (foldE (evenStep v nm c fuel rf (cur / 2) prior) (best, spread best.sums) tops).map (·.1) := by
+  rw [rnpRecF]
+  simp only [h2, h1, Bool.false_eq_true, if_false]
+  rfl
+
+/-- `rec_generate_sets` of RNP: the returned sums depend neither on the manager nor on the item lists of the
+    incumbent -/
+theorem rnpRecF_sim {v nm : α → Nat} [BEq α] [LawfulBEq α] (c c' : Bool) (fuel : Nat) (rf : Nat) :
+    ∀ (cur : Nat) (prior best best' : Bins α) (items : List α) (r r' : Bins α), best.sums = best'.sums →
+      rnpRecF v nm c fuel rf cur prior best items = .ok r → rnpRecF v nm c' fuel rf cur prior best' items = .ok r' →
+      r.sums = r'.sums := by
+  induction rf with
+  | zero => intro cur prior best best' items r r' _ h; simp only [rnpRecF] at h; cases h
+  | succ rf ih =>
+    intro cur prior best best' items r r' hb h h'
+    cases h2 : cur == 2 with
+    | true =>
+      have := eq_of_beq h2
+      subst this
+      exact ckk2_sums_eq (rnpRecF_two_eq h) (rnpRecF_two_eq h')
+    | false =>
+      cases h1 : cur % 2 == 1 with
+      | true =>
+        have hodd : cur % 2 = 1 := eq_of_beq h1
+        rw [rnpRecF_odd_eq hodd] at h h'
+        rw [← hb] at h'
+        refine foldE_sim (fun b b' : Bins α => b.sums = b'.sums) _ _ ?_ _ _ _ _ _ hb h h'
+        intro s s' x t t' hs ht ht'
+        obtain ⟨nb, hnb, hcase⟩ := oddStep_cases ht
+        obtain ⟨nb', hnb', hcase'⟩ := oddStep_cases ht'
+        have e := ih _ _ _ _ _ _ _ hs hnb hnb'
+        rw [← e, ← hs] at hcase'
+        rcases hcase with ⟨hlt, rfl⟩ | ⟨hle, rfl⟩ <;> rcases hcase' with ⟨hlt', rfl⟩ | ⟨hle', rfl⟩
+        · simp only [Bins.concat, e]
+        · omega
+        · omega
+        · exact hs
+      | false =>
+        rw [rnpRecF_even_eq h2 h1] at h h'
+        rw [← hb] at h'
+        split at h
+        · cases h
+        · rename_i tops hg
+          rw [hg] at h'
+          simp only at h'
+          cases hf : foldE (evenStep v nm c fuel rf (cur / 2) prior) (best, spread best.sums) tops with
+          | error e => rw [hf] at h; cases h
+          | ok st =>
+            rw [hf] at h
+            cases hf' : foldE (evenStep v nm c' fuel rf (cur / 2) prior) (best', spread best.sums) tops with
+            | error e => rw [hf'] at h'; cases h'
+            | ok st' =>
+              rw [hf'] at h'
+              simp only [Except.map] at h h'
+              cases h; cases h'
+              refine (foldE_sim (fun (s s' : Bins α × Nat) => s.1.sums = s'.1.sums ∧ s.2 = s'.2) _ _ ?_
+                tops (best, spread best.sums) (best', spread best.sums) st st' ⟨hb, rfl⟩ hf hf').1
+              intro s s' x t t' hs ht ht'
+              obtain ⟨nb1, nb2, hn1, hn2, hcase⟩ := evenStep_cases ht
+              obtain ⟨nb1', nb2', hn1', hn2', hcase'⟩ := evenStep_cases ht'
+              have e1 := ih _ _ _ _ _ _ _ hs.1 hn1 hn1'
+              have e2 := ih _ _ _ _ _ _ _ hs.1 hn2 hn2'
+              rw [← e1, ← e2, ← hs.2] at hcase'
+              rcases hcase with ⟨hlt, rfl⟩ | ⟨hle, rfl⟩ <;> rcases hcase' with ⟨hlt', rfl⟩ | ⟨hle', rfl⟩
+              · exact ⟨by simp only [Bins.concat, e1, e2], rfl⟩
+              · omega
+              · omega
+              · exact hs
+
+/-- **Stretch goal, RNP: the vector of sums does not depend on the manager** (same call, hence same fuel: the
+    top-level 2-way generator of the even case, which runs with the contents manager in both runs, uses it). -/
+theorem rnpF_sums_manager_independent {v nm : α → Nat} [BEq α] [LawfulBEq α] {k : Nat} {items : List α}
+    {fuel : Nat} {b₁ b₂ : Bins α} (h₁ : rnpF v nm k true items fuel = .ok b₁)
+    (h₂ : rnpF v nm k false items fuel = .ok b₂) : b₂.sums = b₁.sums := by
+  unfold rnpF at h₁ h₂
+  cases hb : kk v k items with
+  | error e => rw [hb] at h₁; cases h₁
+  | ok best =>
+    rw [hb] at h₁ h₂
+    simp only at h₁ h₂
+    split at h₁
+    · rename_i h0
+      rw [if_pos h0] at h₂
+      cases h₁; cases h₂; rfl
+    · rename_i h0
+      rw [if_neg h0] at h₂
+      split at h₁
+      · cases h₁
+      · rename_i h6
+        rw [if_neg h6] at h₂
+        exact (rnpRecF_sim true false fuel (k + 1) k _ best best items b₁ b₂ rfl h₁ h₂).symm
+
+/-- non-vacuity: the two runs on eight items and five bins -/
+example : (⟨[9, 9, 12, 11, 12], [[9], [], [], [], []]⟩ : Bins Nat).sums
+    = (⟨[9, 9, 12, 11, 12], [[9], [9], [6, 6], [11], [4, 4, 4]]⟩ : Bins Nat).sums :=
+  rnpF_sums_manager_independent (v := id) (nm := id) (k := 5) (items := [11, 9, 9, 6, 6, 4, 4, 4])
+    (fuel := 1000) rfl rfl
+
+/-- by-product: 2-way complete Karmarkar–Karp returns the same vector of sums with either manager -/
+theorem ckk_two_sums_manager_independent {v nm : α → Nat} [BEq α] [LawfulBEq α] {items : List α}
+    {fuel₁ fuel₂ : Nat} {b₁ b₂ : Bins α} (hne : items ≠ []) (h₁ : ckk v nm 2 true items fuel₁ = .ok b₁)
+    (h₂ : ckk v nm 2 false items fuel₂ = .ok b₂) : b₂.sums = b₁.sums := by
+  have e : ∀ c f, ckk2 v nm c items f = ckk v nm 2 c items f := fun c f => by
+    unfold ckk2
+    rw [if_neg (by simpa using hne)]
+  exact (ckk2_sums_eq ((e true fuel₁).trans h₁) ((e false fuel₂).trans h₂)).symm
+
+example : (⟨[15, 15], [[], []]⟩ : Bins Nat).sums = (⟨[15, 15], [[4, 5, 6], [7, 8]]⟩ : Bins Nat).sums :=
+  ckk_two_sums_manager_independent (v := id) (nm := id) (items := [4, 5, 6, 7, 8]) (fuel₁ := 100) (fuel₂ := 100)
+    (by decide) rfl rfl
+
+/-! ## 5. C06: the value does not depend on the manager -/
+
+/-- **C06 for SNP**: the difference between the largest and the smallest sum is the same whether the run keeps the
+    contents or only the sums (both are the optimum; here even as a corollary of the equality of the sums). -/
+theorem snp_value_manager_independent {v nm : α → Nat} [BEq α] [LawfulBEq α] {k : Nat} {items : List α}
+    {fuel₁ fuel₂ : Nat} {b₁ b₂ : Bins α} (h₁ : snp v nm k true items fuel₁ = .ok b₁)
+    (h₂ : snp v nm k false items fuel₂ = .ok b₂) : spread b₁.sums = spread b₂.sums := by
+  rw [snp_sums_manager_independent h₁ h₂]
+
+example : spread (⟨[12, 12, 9, 11, 9], [[4, 4, 4], [6, 6], [9], [11], [9]]⟩ : Bins Nat).sums
+    = spread (⟨[12, 12, 9, 11, 9], [[], [], [9], [11], [9]]⟩ : Bins Nat).sums :=
+  snp_value_manager_independent (v := id) (nm := id) (k := 5) (items := [11, 9, 9, 6, 6, 4, 4, 4])
+    (fuel₁ := 1000) (fuel₂ := 1000) rfl rfl
+
+/-- the same through optimality (the route that does not need the lock-step argument): any two runs of `snp`,
+    whatever their managers and fuels, return the same difference -/
+theorem snp_value_any {v nm : α → Nat} [BEq α] [LawfulBEq α] {c₁ c₂ : Bool} {k : Nat} {items : List α}
+    {fuel₁ fuel₂ : Nat} {b₁ b₂ : Bins α} (hk : 0 < k) (hne : items ≠ [])
+    (h₁ : snp v nm k c₁ items fuel₁ = .ok b₁) (h₂ : snp v nm k c₂ items fuel₂ = .ok b₂) :
+    spread b₁.sums = spread b₂.sums := by
+  have := Oracle.isOptimalValue_unique (snp_optimal_any c₁ hk hne h₁).2 (snp_optimal_any c₂ hk hne h₂).2
+  rw [value_minDiff, value_minDiff] at this
+  exact_mod_cast this
+
+/-- **C06 for RNP** (`numbins ≤ 5`; for more bins the model answers `notImplemented` with either manager) -/
+theorem rnpF_value_manager_independent {v nm : α → Nat} [BEq α] [LawfulBEq α] {k : Nat} {items : List α}
+    {fuel : Nat} {b₁ b₂ : Bins α} (h₁ : rnpF v nm k true items fuel = .ok b₁)
+    (h₂ : rnpF v nm k false items fuel = .ok b₂) : spread b₁.sums = spread b₂.sums := by
+  rw [rnpF_sums_manager_independent h₁ h₂]
+
+example : spread (⟨[9, 9, 12, 11, 12], [[9], [9], [6, 6], [11], [4, 4, 4]]⟩ : Bins Nat).sums
+    = spread (⟨[9, 9, 12, 11, 12], [[9], [], [], [], []]⟩ : Bins Nat).sums :=
+  rnpF_value_manager_independent (v := id) (nm := id) (k := 5) (items := [11, 9, 9, 6, 6, 4, 4, 4])
+    (fuel := 1000) rfl rfl
+
+/-- the same through optimality, with independent fuels -/
+theorem rnpF_value_any {v nm : α → Nat} [BEq α] [LawfulBEq α] {c₁ c₂ : Bool} {k : Nat} {items : List α}
+    {fuel₁ fuel₂ : Nat} {b₁ b₂ : Bins α} (hk : 0 < k) (hk5 : k ≤ 5) (hne : items ≠ [])
+    (h₁ : rnpF v nm k c₁ items fuel₁ = .ok b₁) (h₂ : rnpF v nm k c₂ items fuel₂ = .ok b₂) :
+    spread b₁.sums = spread b₂.sums := by
+  have := Oracle.isOptimalValue_unique (rnpF_optimal_any c₁ hk hk5 hne h₁).2 (rnpF_optimal_any c₂ hk hk5 hne h₂).2
+  rw [value_minDiff, value_minDiff] at this
+  exact_mod_cast this
+
+/-- a successful run of complete Karmarkar–Karp had items to work on -/
+theorem ckk_ne_nil {v nm : α → Nat} [BEq α] {k : Nat} {c : Bool} {items : List α} {fuel : Nat} {b : Bins α}
+    (h : ckk v nm k c items fuel = .ok b) : items ≠ [] := by
+  rintro rfl
+  unfold ckk at h
+  simp only [] at h
+  rw [CKKOpt.ckkRun_empty] at h
+  split at h <;> cases h
+
+/-- **C06 for complete Karmarkar–Karp**, any number of bins: the difference returned is the same with either
+    manager (both are the optimum) -/
+theorem ckk_value_manager_independent {v nm : α → Nat} [BEq α] [LawfulBEq α] {k : Nat} {items : List α}
+    {fuel₁ fuel₂ : Nat} {b₁ b₂ : Bins α} (hk : 0 < k) (h₁ : ckk v nm k true items fuel₁ = .ok b₁)
+    (h₂ : ckk v nm k false items fuel₂ = .ok b₂) : spread b₁.sums = spread b₂.sums := by
+  have hne := ckk_ne_nil h₁
+  have := Oracle.isOptimalValue_unique (CKKOpt.ckk_optimal hk hne h₁) (CKKOpt.ckk_sums_optimal hk hne h₂)
+  rw [value_minDiff, value_minDiff] at this
+  exact_mod_cast this
+
+example : spread (⟨[8, 11, 11], [[8], [5, 6], [4, 7]]⟩ : Bins Nat).sums
+    = spread (⟨[8, 11, 11], [[], [], []]⟩ : Bins Nat).sums :=
+  ckk_value_manager_independent (v := id) (nm := id) (k := 3) (items := [4, 5, 6, 7, 8])
+    (fuel₁ := 100) (fuel₂ := 100) (by decide) rfl rfl
+
 end Prtpy.SumsOnly
